@@ -1,0 +1,80 @@
+//go:build verif
+
+package rpc
+
+// Contracts for gocv (contract-based deductive verification, /verif).
+
+// ---- parameters by name reach the handler argument they name (C08) --------------------------------
+// The JSON-RPC server binds the i-th entry of a method's parameter list to the handler's i-th
+// argument. For the read methods (starknet_get*), each served version's table lists the
+// parameters under the names and in the order of the Starknet API specification - the order of
+// the handler's arguments - so that a by-name request asks the chain what it says it asks.
+//@ func (*Handler).MethodsV0_10
+//@   props C08
+//@   arith int
+//@   nosafe
+//@   modifies *
+//@   ensures getBlockWithTxHashes: forall k int :: 0 <= k && k < len(result0) && result0[k].Name == "starknet_getBlockWithTxHashes" ==> len(result0[k].Params) == 1 && result0[k].Params[0].Name == "block_id"
+//@   ensures getBlockWithTxs: forall k int :: 0 <= k && k < len(result0) && result0[k].Name == "starknet_getBlockWithTxs" ==> len(result0[k].Params) == 2 && result0[k].Params[0].Name == "block_id" && result0[k].Params[1].Name == "response_flags"
+//@   ensures getTransactionByHash: forall k int :: 0 <= k && k < len(result0) && result0[k].Name == "starknet_getTransactionByHash" ==> len(result0[k].Params) == 2 && result0[k].Params[0].Name == "transaction_hash" && result0[k].Params[1].Name == "response_flags"
+//@   ensures getTransactionReceipt: forall k int :: 0 <= k && k < len(result0) && result0[k].Name == "starknet_getTransactionReceipt" ==> len(result0[k].Params) == 1 && result0[k].Params[0].Name == "transaction_hash"
+//@   ensures getBlockTransactionCount: forall k int :: 0 <= k && k < len(result0) && result0[k].Name == "starknet_getBlockTransactionCount" ==> len(result0[k].Params) == 1 && result0[k].Params[0].Name == "block_id"
+//@   ensures getTransactionByBlockIdAndIndex: forall k int :: 0 <= k && k < len(result0) && result0[k].Name == "starknet_getTransactionByBlockIdAndIndex" ==> len(result0[k].Params) == 3 && result0[k].Params[0].Name == "block_id" && result0[k].Params[1].Name == "index" && result0[k].Params[2].Name == "response_flags"
+//@   ensures getStateUpdate: forall k int :: 0 <= k && k < len(result0) && result0[k].Name == "starknet_getStateUpdate" ==> len(result0[k].Params) == 2 && result0[k].Params[0].Name == "block_id" && result0[k].Params[1].Name == "contract_addresses"
+//@   ensures getNonce: forall k int :: 0 <= k && k < len(result0) && result0[k].Name == "starknet_getNonce" ==> len(result0[k].Params) == 2 && result0[k].Params[0].Name == "block_id" && result0[k].Params[1].Name == "contract_address"
+//@   ensures getStorageAt: forall k int :: 0 <= k && k < len(result0) && result0[k].Name == "starknet_getStorageAt" ==> len(result0[k].Params) == 4 && result0[k].Params[0].Name == "contract_address" && result0[k].Params[1].Name == "key" && result0[k].Params[2].Name == "block_id" && result0[k].Params[3].Name == "response_flags"
+//@   ensures getClassHashAt: forall k int :: 0 <= k && k < len(result0) && result0[k].Name == "starknet_getClassHashAt" ==> len(result0[k].Params) == 2 && result0[k].Params[0].Name == "block_id" && result0[k].Params[1].Name == "contract_address"
+//@   ensures getClass: forall k int :: 0 <= k && k < len(result0) && result0[k].Name == "starknet_getClass" ==> len(result0[k].Params) == 2 && result0[k].Params[0].Name == "block_id" && result0[k].Params[1].Name == "class_hash"
+//@   ensures getClassAt: forall k int :: 0 <= k && k < len(result0) && result0[k].Name == "starknet_getClassAt" ==> len(result0[k].Params) == 2 && result0[k].Params[0].Name == "block_id" && result0[k].Params[1].Name == "contract_address"
+//@   ensures getEvents: forall k int :: 0 <= k && k < len(result0) && result0[k].Name == "starknet_getEvents" ==> len(result0[k].Params) == 1 && result0[k].Params[0].Name == "filter"
+//@   ensures getTransactionStatus: forall k int :: 0 <= k && k < len(result0) && result0[k].Name == "starknet_getTransactionStatus" ==> len(result0[k].Params) == 1 && result0[k].Params[0].Name == "transaction_hash"
+//@   ensures getBlockWithReceipts: forall k int :: 0 <= k && k < len(result0) && result0[k].Name == "starknet_getBlockWithReceipts" ==> len(result0[k].Params) == 2 && result0[k].Params[0].Name == "block_id" && result0[k].Params[1].Name == "response_flags"
+//@   ensures getCompiledCasm: forall k int :: 0 <= k && k < len(result0) && result0[k].Name == "starknet_getCompiledCasm" ==> len(result0[k].Params) == 1 && result0[k].Params[0].Name == "class_hash"
+//@   ensures getMessagesStatus: forall k int :: 0 <= k && k < len(result0) && result0[k].Name == "starknet_getMessagesStatus" ==> len(result0[k].Params) == 1 && result0[k].Params[0].Name == "transaction_hash"
+//@   ensures getStorageProof: forall k int :: 0 <= k && k < len(result0) && result0[k].Name == "starknet_getStorageProof" ==> len(result0[k].Params) == 4 && result0[k].Params[0].Name == "block_id" && result0[k].Params[1].Name == "class_hashes" && result0[k].Params[2].Name == "contract_addresses" && result0[k].Params[3].Name == "contracts_storage_keys"
+//@ func (*Handler).MethodsV0_9
+//@   props C08
+//@   arith int
+//@   nosafe
+//@   modifies *
+//@   ensures getBlockWithTxHashes: forall k int :: 0 <= k && k < len(result0) && result0[k].Name == "starknet_getBlockWithTxHashes" ==> len(result0[k].Params) == 1 && result0[k].Params[0].Name == "block_id"
+//@   ensures getBlockWithTxs: forall k int :: 0 <= k && k < len(result0) && result0[k].Name == "starknet_getBlockWithTxs" ==> len(result0[k].Params) == 1 && result0[k].Params[0].Name == "block_id"
+//@   ensures getTransactionByHash: forall k int :: 0 <= k && k < len(result0) && result0[k].Name == "starknet_getTransactionByHash" ==> len(result0[k].Params) == 1 && result0[k].Params[0].Name == "transaction_hash"
+//@   ensures getTransactionReceipt: forall k int :: 0 <= k && k < len(result0) && result0[k].Name == "starknet_getTransactionReceipt" ==> len(result0[k].Params) == 1 && result0[k].Params[0].Name == "transaction_hash"
+//@   ensures getBlockTransactionCount: forall k int :: 0 <= k && k < len(result0) && result0[k].Name == "starknet_getBlockTransactionCount" ==> len(result0[k].Params) == 1 && result0[k].Params[0].Name == "block_id"
+//@   ensures getTransactionByBlockIdAndIndex: forall k int :: 0 <= k && k < len(result0) && result0[k].Name == "starknet_getTransactionByBlockIdAndIndex" ==> len(result0[k].Params) == 2 && result0[k].Params[0].Name == "block_id" && result0[k].Params[1].Name == "index"
+//@   ensures getStateUpdate: forall k int :: 0 <= k && k < len(result0) && result0[k].Name == "starknet_getStateUpdate" ==> len(result0[k].Params) == 1 && result0[k].Params[0].Name == "block_id"
+//@   ensures getNonce: forall k int :: 0 <= k && k < len(result0) && result0[k].Name == "starknet_getNonce" ==> len(result0[k].Params) == 2 && result0[k].Params[0].Name == "block_id" && result0[k].Params[1].Name == "contract_address"
+//@   ensures getStorageAt: forall k int :: 0 <= k && k < len(result0) && result0[k].Name == "starknet_getStorageAt" ==> len(result0[k].Params) == 3 && result0[k].Params[0].Name == "contract_address" && result0[k].Params[1].Name == "key" && result0[k].Params[2].Name == "block_id"
+//@   ensures getClassHashAt: forall k int :: 0 <= k && k < len(result0) && result0[k].Name == "starknet_getClassHashAt" ==> len(result0[k].Params) == 2 && result0[k].Params[0].Name == "block_id" && result0[k].Params[1].Name == "contract_address"
+//@   ensures getClass: forall k int :: 0 <= k && k < len(result0) && result0[k].Name == "starknet_getClass" ==> len(result0[k].Params) == 2 && result0[k].Params[0].Name == "block_id" && result0[k].Params[1].Name == "class_hash"
+//@   ensures getClassAt: forall k int :: 0 <= k && k < len(result0) && result0[k].Name == "starknet_getClassAt" ==> len(result0[k].Params) == 2 && result0[k].Params[0].Name == "block_id" && result0[k].Params[1].Name == "contract_address"
+//@   ensures getEvents: forall k int :: 0 <= k && k < len(result0) && result0[k].Name == "starknet_getEvents" ==> len(result0[k].Params) == 1 && result0[k].Params[0].Name == "filter"
+//@   ensures getTransactionStatus: forall k int :: 0 <= k && k < len(result0) && result0[k].Name == "starknet_getTransactionStatus" ==> len(result0[k].Params) == 1 && result0[k].Params[0].Name == "transaction_hash"
+//@   ensures getBlockWithReceipts: forall k int :: 0 <= k && k < len(result0) && result0[k].Name == "starknet_getBlockWithReceipts" ==> len(result0[k].Params) == 1 && result0[k].Params[0].Name == "block_id"
+//@   ensures getCompiledCasm: forall k int :: 0 <= k && k < len(result0) && result0[k].Name == "starknet_getCompiledCasm" ==> len(result0[k].Params) == 1 && result0[k].Params[0].Name == "class_hash"
+//@   ensures getMessagesStatus: forall k int :: 0 <= k && k < len(result0) && result0[k].Name == "starknet_getMessagesStatus" ==> len(result0[k].Params) == 1 && result0[k].Params[0].Name == "transaction_hash"
+//@   ensures getStorageProof: forall k int :: 0 <= k && k < len(result0) && result0[k].Name == "starknet_getStorageProof" ==> len(result0[k].Params) == 4 && result0[k].Params[0].Name == "block_id" && result0[k].Params[1].Name == "class_hashes" && result0[k].Params[2].Name == "contract_addresses" && result0[k].Params[3].Name == "contracts_storage_keys"
+//@ func (*Handler).MethodsV0_8
+//@   props C08
+//@   arith int
+//@   nosafe
+//@   modifies *
+//@   ensures getBlockWithTxHashes: forall k int :: 0 <= k && k < len(result0) && result0[k].Name == "starknet_getBlockWithTxHashes" ==> len(result0[k].Params) == 1 && result0[k].Params[0].Name == "block_id"
+//@   ensures getBlockWithTxs: forall k int :: 0 <= k && k < len(result0) && result0[k].Name == "starknet_getBlockWithTxs" ==> len(result0[k].Params) == 1 && result0[k].Params[0].Name == "block_id"
+//@   ensures getTransactionByHash: forall k int :: 0 <= k && k < len(result0) && result0[k].Name == "starknet_getTransactionByHash" ==> len(result0[k].Params) == 1 && result0[k].Params[0].Name == "transaction_hash"
+//@   ensures getTransactionReceipt: forall k int :: 0 <= k && k < len(result0) && result0[k].Name == "starknet_getTransactionReceipt" ==> len(result0[k].Params) == 1 && result0[k].Params[0].Name == "transaction_hash"
+//@   ensures getBlockTransactionCount: forall k int :: 0 <= k && k < len(result0) && result0[k].Name == "starknet_getBlockTransactionCount" ==> len(result0[k].Params) == 1 && result0[k].Params[0].Name == "block_id"
+//@   ensures getTransactionByBlockIdAndIndex: forall k int :: 0 <= k && k < len(result0) && result0[k].Name == "starknet_getTransactionByBlockIdAndIndex" ==> len(result0[k].Params) == 2 && result0[k].Params[0].Name == "block_id" && result0[k].Params[1].Name == "index"
+//@   ensures getStateUpdate: forall k int :: 0 <= k && k < len(result0) && result0[k].Name == "starknet_getStateUpdate" ==> len(result0[k].Params) == 1 && result0[k].Params[0].Name == "block_id"
+//@   ensures getNonce: forall k int :: 0 <= k && k < len(result0) && result0[k].Name == "starknet_getNonce" ==> len(result0[k].Params) == 2 && result0[k].Params[0].Name == "block_id" && result0[k].Params[1].Name == "contract_address"
+//@   ensures getStorageAt: forall k int :: 0 <= k && k < len(result0) && result0[k].Name == "starknet_getStorageAt" ==> len(result0[k].Params) == 3 && result0[k].Params[0].Name == "contract_address" && result0[k].Params[1].Name == "key" && result0[k].Params[2].Name == "block_id"
+//@   ensures getClassHashAt: forall k int :: 0 <= k && k < len(result0) && result0[k].Name == "starknet_getClassHashAt" ==> len(result0[k].Params) == 2 && result0[k].Params[0].Name == "block_id" && result0[k].Params[1].Name == "contract_address"
+//@   ensures getClass: forall k int :: 0 <= k && k < len(result0) && result0[k].Name == "starknet_getClass" ==> len(result0[k].Params) == 2 && result0[k].Params[0].Name == "block_id" && result0[k].Params[1].Name == "class_hash"
+//@   ensures getClassAt: forall k int :: 0 <= k && k < len(result0) && result0[k].Name == "starknet_getClassAt" ==> len(result0[k].Params) == 2 && result0[k].Params[0].Name == "block_id" && result0[k].Params[1].Name == "contract_address"
+//@   ensures getEvents: forall k int :: 0 <= k && k < len(result0) && result0[k].Name == "starknet_getEvents" ==> len(result0[k].Params) == 1 && result0[k].Params[0].Name == "filter"
+//@   ensures getTransactionStatus: forall k int :: 0 <= k && k < len(result0) && result0[k].Name == "starknet_getTransactionStatus" ==> len(result0[k].Params) == 1 && result0[k].Params[0].Name == "transaction_hash"
+//@   ensures getBlockWithReceipts: forall k int :: 0 <= k && k < len(result0) && result0[k].Name == "starknet_getBlockWithReceipts" ==> len(result0[k].Params) == 1 && result0[k].Params[0].Name == "block_id"
+//@   ensures getCompiledCasm: forall k int :: 0 <= k && k < len(result0) && result0[k].Name == "starknet_getCompiledCasm" ==> len(result0[k].Params) == 1 && result0[k].Params[0].Name == "class_hash"
+//@   ensures getMessagesStatus: forall k int :: 0 <= k && k < len(result0) && result0[k].Name == "starknet_getMessagesStatus" ==> len(result0[k].Params) == 1 && result0[k].Params[0].Name == "transaction_hash"
+//@   ensures getStorageProof: forall k int :: 0 <= k && k < len(result0) && result0[k].Name == "starknet_getStorageProof" ==> len(result0[k].Params) == 4 && result0[k].Params[0].Name == "block_id" && result0[k].Params[1].Name == "class_hashes" && result0[k].Params[2].Name == "contract_addresses" && result0[k].Params[3].Name == "contracts_storage_keys"
